@@ -446,6 +446,71 @@ func runC07(r *rt.Runner) {
 			c.Nontrivial([]byte(fmt.Sprintf("many|%s|%d", kind, nBlocks)), func() string { return fmt.Sprintf("%d blocks of 100 %s entries", nBlocks, kind) })
 		})
 	}
+	// a file that needs most of the reader's operation budget (sorting the tables is
+	// not something the file's program does), and a file of more than 64 MiB
+	for _, shape := range []string{"many-operations", "many-bytes"} {
+		shape := shape
+		r.Case("huge-file/"+shape, func(c *rt.C) {
+			rng := c.Rand()
+			var sb bytes.Buffer
+			sb.WriteString("%!PS-Adobe-3.0 Resource-CMap\n/CIDInit /ProcSet findresource begin\n12 dict begin\nbegincmap\n/CIDSystemInfo << /Registry (Adobe) /Ordering (Huge) /Supplement 0 >> def\n/CMapName /Huge def\n/CMapType 1 def\n1 begincodespacerange <000000> <ffffff> endcodespacerange\n")
+			nEntries := 0
+			if shape == "many-operations" {
+				// about 2 operations per entry: 330 000 ... 400 000 entries stay below the budget of a million
+				blocks := 3300 + rng.IntN(700)
+				for b := 0; b < blocks; b++ {
+					sb.WriteString("100 begincidchar\n")
+					for i := 0; i < 100; i++ {
+						fmt.Fprintf(&sb, "<%06x> %d\n", nEntries, nEntries%65000)
+						nEntries++
+					}
+					sb.WriteString("endcidchar\n")
+				}
+			} else {
+				dst := strings.Repeat("ab", 520) // 1040 hex digits: a destination string of 520 bytes
+				for nEntries < 68000 {
+					sb.WriteString("100 beginbfchar\n")
+					for i := 0; i < 100; i++ {
+						fmt.Fprintf(&sb, "<%06x> <%s>\n", nEntries, dst)
+						nEntries++
+					}
+					sb.WriteString("endbfchar\n")
+				}
+			}
+			sb.WriteString("endcmap\nCMapName currentdict /CMap defineresource pop\nend\nend\n")
+			c.SetDetail(func() string { return fmt.Sprintf("%s: %d entries, %d bytes", shape, nEntries, sb.Len()) })
+			d, err := postscript.ReadCMap(bytes.NewReader(sb.Bytes()))
+			c.Count("huge CMap files: " + shape)
+			if err != nil {
+				c.Violation("huge-file|"+shape+"|"+errClass(err), fmt.Sprintf("ReadCMap failed on a file in the standard form (%s: %d entries, %d bytes): %v", shape, nEntries, sb.Len(), err), "")
+				return
+			}
+			ci, _ := d["CodeMap"].(*postscript.CMapInfo)
+			got := 0
+			if ci != nil {
+				got = len(ci.CidChars) + len(ci.BfChars)
+			}
+			if got != nEntries {
+				c.Violation("huge-file|"+shape+"|entries", fmt.Sprintf("the file holds %d entries, the returned CMap %d", nEntries, got), "")
+			} else if ci != nil {
+				// spot checks: first, last and some entries in between (the table is sorted by code = entry number)
+				for _, k := range []int{0, 1, nEntries / 2, nEntries - 1, rng.IntN(nEntries)} {
+					var src []byte
+					if shape == "many-operations" {
+						src = ci.CidChars[k].Src
+					} else {
+						src = ci.BfChars[k].Src
+					}
+					if len(src) != 3 || int(src[0])<<16|int(src[1])<<8|int(src[2]) != k {
+						c.Violation("huge-file|"+shape+"|order", fmt.Sprintf("entry %d of the sorted table has the code %x", k, src), "")
+						break
+					}
+				}
+			}
+			c.Runner().Max("largest CMap file read (bytes)", int64(sb.Len()))
+			c.Nontrivial([]byte("huge|"+shape+fmt.Sprint(nEntries)), func() string { return fmt.Sprintf("%s: %d entries, %d bytes", shape, nEntries, sb.Len()) })
+		})
+	}
 	// full bfrange blocks with long array destinations (one array element per
 	// code of a one-byte span, up to 256)
 	for _, arrLen := range []int{1, 100, 150, 199, 200, 201, 256} {
